@@ -33,6 +33,10 @@ pub struct Case {
     /// length of the embedded valid stream (Valid/Trailing)
     pub stream_len: usize,
     pub desc: String,
+    /// 0 = a new InflateState; h > 0 = a state that first handled two-step history (h-1)/2 (a dynamic
+    /// stream, then a stream rejected at its block header) and was reset to `fmt` (odd h) or
+    /// MinReset (even h)
+    pub history: u8,
 }
 
 const LARGE: usize = 1 << 17;
@@ -87,7 +91,7 @@ fn flush_of(f: u8) -> MZFlush {
 impl<'a> InfModel<'a> {
     pub fn init(&self) -> St {
         St {
-            st: InflateState::new_boxed(self.c.fmt),
+            st: if self.c.history == 0 { InflateState::new_boxed(self.c.fmt) } else { crate::drv::deep_history_state((self.c.history as usize - 1) / 2, self.c.fmt, (self.c.history - 1) % 2 == 1) },
             ip: 0,
             delivered: 0,
             calls: 0,
@@ -104,7 +108,7 @@ impl<'a> InfModel<'a> {
     }
     fn rp(&self, path: &[Act]) -> Value {
         json!({"stream_hex": hex(&self.c.data), "fmt": fmt_name(self.c.fmt), "kind": format!("{:?}", self.c.kind), "expected_hex": if self.c.expected.len() < 4000 { json!(hex(&self.c.expected)) } else { Value::Null },
-               "stream_len": self.c.stream_len, "desc": self.c.desc,
+               "stream_len": self.c.stream_len, "desc": self.c.desc, "history": self.c.history,
                "schedule": path.iter().map(|a| json!([if a.k == u32::MAX { -1 } else { a.k as i64 }, a.room, a.flush])).collect::<Vec<_>>()})
     }
     fn viol(&self, site: &str, what: String, path: &[Act]) {
@@ -467,17 +471,17 @@ pub fn cases(th: bool) -> Vec<Case> {
     for s in &valid {
         let fmts: Vec<DataFormat> = if s.zlib { vec![DataFormat::Zlib, DataFormat::ZLibIgnoreChecksum] } else { vec![DataFormat::Raw] };
         for fmt in fmts {
-            v.push(Case { data: s.bytes.clone(), fmt, kind: Kind::Valid, expected: s.plain.clone(), stream_len: s.bytes.len(), desc: s.desc.clone() });
+            v.push(Case { data: s.bytes.clone(), fmt, kind: Kind::Valid, expected: s.plain.clone(), stream_len: s.bytes.len(), desc: s.desc.clone(), history: 0 });
             if s.bytes.len() < 400 {
                 // trailing bytes
                 let mut d = s.bytes.clone();
                 d.extend_from_slice(&[0x00, 0xff, 0x78]);
-                v.push(Case { data: d, fmt, kind: Kind::Trailing, expected: s.plain.clone(), stream_len: s.bytes.len(), desc: format!("{}+3 trailing", s.desc) });
+                v.push(Case { data: d, fmt, kind: Kind::Trailing, expected: s.plain.clone(), stream_len: s.bytes.len(), desc: format!("{}+3 trailing", s.desc), history: 0 });
                 // truncations at every byte (quick: a spread)
                 let n = s.bytes.len();
                 let step = if th { 1 } else { (n / 4).max(1) };
                 for cut in (0..n).step_by(step).chain(if n > 1 { Some(n - 1) } else { None }) {
-                    v.push(Case { data: s.bytes[..cut].to_vec(), fmt, kind: Kind::Truncated, expected: s.plain.clone(), stream_len: usize::MAX, desc: format!("{} truncated at {}", s.desc, cut) });
+                    v.push(Case { data: s.bytes[..cut].to_vec(), fmt, kind: Kind::Truncated, expected: s.plain.clone(), stream_len: usize::MAX, desc: format!("{} truncated at {}", s.desc, cut), history: 0 });
                 }
                 // corrupt mutants the reference rejects outright
                 let mut made = 0;
@@ -496,13 +500,31 @@ pub fn cases(th: bool) -> Vec<Case> {
                         // plaintext reference for the prefix rule: what the low-level decoder emits before failing
                         let f = if s.zlib { F_ZLIB } else { 0 } | if fmt == DataFormat::ZLibIgnoreChecksum { F_IGN } else { 0 };
                         let low = run_const(&m, Mode::Ring, 32768, f, usize::MAX, usize::MAX, 0);
-                        v.push(Case { data: m, fmt, kind: Kind::Corrupt, expected: low.out, stream_len: usize::MAX, desc: format!("{} bit {} flipped", s.desc, bit) });
+                        v.push(Case { data: m, fmt, kind: Kind::Corrupt, expected: low.out, stream_len: usize::MAX, desc: format!("{} bit {} flipped", s.desc, bit), history: 0 });
                         made += 1;
                         if made >= (if th { 8 } else { 3 }) {
                             break;
                         }
                     }
                 }
+            }
+        }
+    }
+    // states with a history: the first fixed-, dynamic- and stored-block streams of the list on an
+    // object that decoded a dynamic stream and then a stream rejected at its block header
+    // (each out-of-range HLIT / HDIST field combination), reset either way
+    let mut picked: Vec<&GenStream> = vec![];
+    for bt in [1u8, 2, 0] {
+        if let Some(s) = valid.iter().find(|s| !s.zlib && s.bytes.len() < 400 && crate::refmodel::ref_inflate(&s.bytes, &crate::refmodel::Opts::raw()).blocks.first().map(|b| b.btype) == Some(bt)) {
+            picked.push(s);
+        }
+    }
+    let hello = GenStream { bytes: miniz_oxide::deflate::compress_to_vec(b"Hello, hello, hello!", 6), plain: b"Hello, hello, hello!".to_vec(), deflate_bits: 0, zlib: false, desc: "crate-produced short text (one fixed block)".into(), nblocks: 0, block_starts: vec![], block_out_starts: vec![] };
+    picked.push(&hello);
+    for s in picked {
+        for k in 0..crate::drv::DEEP_HISTORIES.len() {
+            for min in 0..2u8 {
+                v.push(Case { data: s.bytes.clone(), fmt: DataFormat::Raw, kind: Kind::Valid, expected: s.plain.clone(), stream_len: s.bytes.len(), desc: format!("{} on a state with history {:?}{}", s.desc, crate::drv::DEEP_HISTORIES[k], if min == 1 { " (MinReset)" } else { "" }), history: 1 + 2 * k as u8 + min });
             }
         }
     }
@@ -585,7 +607,7 @@ pub fn replay(v: &Value) -> Option<String> {
         Some(h) => unhex(h),
         None => ref_inflate(&data, &Opts::fmt(fmt != DataFormat::Raw)).out,
     };
-    let c = Case { data, fmt, kind, expected, stream_len: v["stream_len"].as_u64().unwrap_or(u64::MAX) as usize, desc: v["desc"].as_str().unwrap_or("").into() };
+    let c = Case { data, fmt, kind, expected, stream_len: v["stream_len"].as_u64().unwrap_or(u64::MAX) as usize, desc: v["desc"].as_str().unwrap_or("").into(), history: v["history"].as_u64().unwrap_or(0) as u8 };
     let rep = Report::new("C13", "quick", "model_checking");
     let m = InfModel { c: &c, rep: &rep, cov: Mutex::new(BTreeMap::new()), liveness: true };
     let mut s = m.init();
